@@ -91,13 +91,18 @@ class Normaliser:
         self.li = line_index
         self.n = 0
 
-    def null(self):
+    def blank(self, t, v=""):
         self.n += 1
-        return {"t": "Null", "v": "", "a": "", "c": [], "id": self.n}
+        node = {"t": t, "v": v, "a": "", "c": [], "id": self.n, "n": 0}
+        if self.li is not None:
+            node["l"] = node["k"] = node["el"] = node["ek"] = 0
+        return node
+
+    def null(self):
+        return self.blank("Null")
 
     def lst(self, items):
-        self.n += 1
-        node = {"t": "_L", "v": "", "a": "", "c": [], "id": self.n}
+        node = self.blank("_L")
         for it in items:
             node["c"].append(self.null() if it is None else self.node(it))
         return node
@@ -105,8 +110,7 @@ class Normaliser:
     def node(self, d):
         if not isinstance(d, dict):
             # bare scalar in child position (does not happen in swc ASTs); keep total
-            self.n += 1
-            return {"t": "_S", "v": fmt_scalar(d), "a": "", "c": [], "id": self.n}
+            return self.blank("_S", fmt_scalar(d))
         t = d.get("type")
         if t is None:
             if "expression" in d and "spread" in d:
@@ -116,12 +120,14 @@ class Normaliser:
             else:
                 t = "_" + "_".join(sorted(k for k in d if k != "span"))[:40]
         self.n += 1
-        node = {"t": t, "v": "", "a": "", "c": [], "id": self.n}
-        if self.li is not None and isinstance(d.get("span"), dict):
-            sp = d["span"]
-            l, k = self.li.pos(sp["start"])
-            el, ek = self.li.pos(sp["end"])
-            node["l"], node["k"], node["el"], node["ek"] = l, k, el, ek
+        node = {"t": t, "v": "", "a": "", "c": [], "id": self.n, "n": 0}
+        if self.li is not None:
+            node["l"] = node["k"] = node["el"] = node["ek"] = 0
+            if isinstance(d.get("span"), dict):
+                sp = d["span"]
+                l, k = self.li.pos(sp["start"])
+                el, ek = self.li.pos(sp["end"])
+                node["l"], node["k"], node["el"], node["ek"] = l, k, el, ek
         attrs = []
         vset = False
         for key, val in d.items():
@@ -155,7 +161,7 @@ class Normaliser:
         if t == "Identifier" and self.rp and node["v"].startswith(self.rp):
             attrs.append("rp")
         if t == "StringLiteral":
-            attrs.append("b=%d" % len(node["v"].encode("utf-8", "surrogatepass")))
+            node["n"] = len(node["v"].encode("utf-8", "surrogatepass"))   # byte length (C14 bounds)
         node["a"] = ";".join(attrs)
         return node
 
@@ -186,10 +192,12 @@ def flatten(n):
     def go(x):
         i = len(nodes)
         rec = {k: v for k, v in x.items() if k != "c"}
-        rec["k"] = []
+        for f in ("l", "k", "el", "ek"):
+            rec.setdefault(f, 0)
+        rec["kids"] = []
         nodes.append(rec)
         for c in x["c"]:
-            rec["k"].append(go(c) + 1)
+            rec["kids"].append(go(c) + 1)
         return i
     import sys
     sys.setrecursionlimit(max(sys.getrecursionlimit(), 20000))
